@@ -45,6 +45,8 @@ def check(ctx):
         trees = [e.data[0] for e in p.events if e.kind == "call" and callee(e.data[0]) == "verde.utils.kdtree"]
         qs = [e.data[0] for e in p.events if e.kind == "call" and callee(e.data[0]) == ".query"]
         ok = None
+        if not qs and not trees and any(c[0] == "cmp" and c[1] == "==" and c[3] == const(1) and v_ and c[2][0] == "attr" and c[2][2] == "size" and c[2][1][0] == "sub" and c[2][1][1] == g for c, v_ in p.conds):
+            ok = True      # the single-block shortcut needs no tree (its constant labels are judged under R3)
         if len(trees) >= 1 and len(qs) == 1:
             t = trees[0]
             built_on = t[2][0] if t[2] else None
@@ -65,8 +67,25 @@ def check(ctx):
             lab = v[1][1]
             if lab[0] == "sub" and lab[1] == qs[0] and is_int(lab[2]):
                 ok = True if lab[2][1] == 1 else False
-        ctx.check("R3", "%s|labels-are-indices|%s" % (qn, tag), ok, "labels = query(...)[1] (indices, not distances), in input order",
-                  bad="labels are element %s of the query result (distances)" % (v[1][1][2][1] if ok is False else "?"), fn=qn)
+        why3 = "labels are element %s of the query result (distances)" % (v[1][1][2][1] if ok is False else "?")
+        if ok is None and v[0] == "tuple" and len(v[1]) == 2 and not qs:
+            lab = Q.unwrap(v[1][1])
+            const_lab = lab[0] == "call" and callee(lab) in ("numpy.zeros", "numpy.zeros_like", "numpy.full", "numpy.full_like", "numpy.ones", "numpy.ones_like", "numpy.empty", "numpy.empty_like")
+            if const_lab:
+                # constant labels are right only when there is ONE block.  The centre grid is a pair of 2-D (n_north, n_east) arrays:
+                # only its .size (or its whole shape) counts blocks; len() of it counts rows
+                one_block = any(c[0] == "cmp" and c[1] == "==" and c[3] == const(1) and v_ and c[2][0] == "attr" and c[2][2] == "size" and c[2][1][0] == "sub" and c[2][1][1] == g for c, v_ in p.conds)
+                rows_only = any(c[0] == "cmp" and c[1] == "==" and c[3] == const(1) and v_ and c[2][0] == "call" and callee(c[2]) == "builtins.len" and c[2][2] and
+                                (c[2][2][0] == g or (c[2][2][0][0] == "sub" and c[2][2][0][1] == g)) for c, v_ in p.conds)
+                if one_block:
+                    ok = True
+                elif rows_only:
+                    ok, why3 = False, ("every point gets the constant label %s on a path guarded only by len(<centre grid>[k]) == 1: len() of the 2-D centre array counts its rows, "
+                                       "so a 1 x n block layout is labelled as a single block" % show(lab)[:40])
+                elif not any(g in Q.leaves(c) or any(x == g for x in walk(c)) for c, _v in p.conds):
+                    ok, why3 = False, "every point gets the constant label %s on a path that does not depend on the number of blocks" % show(lab)[:40]
+        ctx.check("R3", "%s|labels-are-indices|%s" % (qn, tag), ok, "labels = query(...)[1] (indices, not distances), in input order (or a constant only when there is a single block)",
+                  bad=why3, fn=qn)
         # returned centres
         ok = None
         if v[0] == "tuple" and len(v[1]) == 2:
